@@ -235,7 +235,7 @@ fn bit_case(neg: bool, a: &[u64], i: u64, val: bool) -> Verdict {
 }
 
 /// operands for bit operations: powers of two, -(B^k), B^k-1, long trailing zero / one runs
-fn bit_nat(max_len: usize) -> BoxedStrategy<Vec<u64>> {
+pub fn bit_nat(max_len: usize) -> BoxedStrategy<Vec<u64>> {
     prop_oneof![
         30 => gen::nat(max_len),
         10 => (0u64..=(max_len as u64 * 64)).prop_map(|k| Nat::pow2(k).to_u64_digits()),
@@ -265,7 +265,7 @@ fn amount() -> BoxedStrategy<(i128, u128)> {
 }
 
 /// bit index relative to the value: around the lowest set bit, digit edges, the top, beyond
-fn bit_index(a: &[u64], sel: u8, off: u64, far: u64) -> u64 {
+pub fn bit_index(a: &[u64], sel: u8, off: u64, far: u64) -> u64 {
     let n = Nat::from_u64_digits(a);
     let tz = n.trailing_zeros().unwrap_or(0);
     let len = n.to_u64_digits().len() as u64;
